@@ -1380,6 +1380,280 @@ impl Write for StdFile {
     }
 }
 
+/**
+Verification-only instrumentation.
+
+This module only exists when the crate is compiled with `--cfg emit_rs_emit_verif`. It exposes the private rolling file worker over an injected filesystem, clock, and source of randomness so external harnesses can drive the real `Worker::on_batch`. Nothing in here is used by the crate itself.
+*/
+#[cfg(emit_rs_emit_verif)]
+pub mod verif {
+    use super::*;
+
+    /**
+    A public mirror of the private filesystem abstraction used by the worker.
+    */
+    pub trait Filesystem {
+        /** Mirror of `create_dir_all`. */
+        fn create_dir_all(&self, path: &Path) -> io::Result<()>;
+
+        /** Mirror of `sync_parent`. */
+        fn sync_parent(&self, path: &Path) -> io::Result<()>;
+
+        /** Mirror of `read_dir_files`. */
+        fn read_dir_files(&self, path: &Path) -> io::Result<Vec<PathBuf>>;
+
+        /** Mirror of `remove_file`. */
+        fn remove_file(&self, path: &Path) -> io::Result<()>;
+
+        /** Mirror of `open_new`. */
+        fn open_new(&self, path: &Path) -> io::Result<Box<dyn File + Send + Sync>>;
+
+        /** Mirror of `open_existing`. */
+        fn open_existing(&self, path: &Path) -> io::Result<Box<dyn File + Send + Sync>>;
+    }
+
+    /**
+    A public mirror of the private file abstraction used by the worker.
+    */
+    pub trait File: Write {
+        /** Mirror of `len`. */
+        fn len(&self) -> io::Result<usize>;
+
+        /** Mirror of `sync_all`. */
+        fn sync_all(&mut self) -> io::Result<()>;
+    }
+
+    struct FilesystemAdapter<F>(F);
+
+    impl<F: Filesystem> super::Filesystem for FilesystemAdapter<F> {
+        fn create_dir_all(&self, path: &Path) -> io::Result<()> {
+            self.0.create_dir_all(path)
+        }
+
+        fn sync_parent(&self, path: &Path) -> io::Result<()> {
+            self.0.sync_parent(path)
+        }
+
+        fn read_dir_files(&self, path: &Path) -> io::Result<Box<dyn Iterator<Item = PathBuf>>> {
+            Ok(Box::new(self.0.read_dir_files(path)?.into_iter()))
+        }
+
+        fn remove_file(&self, path: &Path) -> io::Result<()> {
+            self.0.remove_file(path)
+        }
+
+        fn open_new(&self, path: &Path) -> io::Result<Box<dyn super::File + Send + Sync>> {
+            Ok(Box::new(FileAdapter(self.0.open_new(path)?)))
+        }
+
+        fn open_existing(&self, path: &Path) -> io::Result<Box<dyn super::File + Send + Sync>> {
+            Ok(Box::new(FileAdapter(self.0.open_existing(path)?)))
+        }
+    }
+
+    struct FileAdapter(Box<dyn File + Send + Sync>);
+
+    // Only `write` and `flush` are forwarded, like `StdFile`, so the worker's
+    // `write_all` calls run the standard library's default loop over `write`
+    impl Write for FileAdapter {
+        fn write(&mut self, buf: &[u8]) -> io::Result<usize> {
+            self.0.write(buf)
+        }
+
+        fn flush(&mut self) -> io::Result<()> {
+            self.0.flush()
+        }
+    }
+
+    impl super::File for FileAdapter {
+        fn len(&self) -> io::Result<usize> {
+            self.0.len()
+        }
+
+        fn sync_all(&mut self) -> io::Result<()> {
+            self.0.sync_all()
+        }
+    }
+
+    /**
+    A public mirror of the private rolling period.
+    */
+    #[derive(Debug, Clone, Copy, PartialEq, Eq)]
+    pub enum RollBy {
+        /** Roll by day. */
+        Day,
+        /** Roll by hour. */
+        Hour,
+        /** Roll by minute. */
+        Minute,
+    }
+
+    impl RollBy {
+        fn to_private(self) -> super::RollBy {
+            match self {
+                RollBy::Day => super::RollBy::Day,
+                RollBy::Hour => super::RollBy::Hour,
+                RollBy::Minute => super::RollBy::Minute,
+            }
+        }
+    }
+
+    /**
+    A wrapper over the private batch type the worker consumes.
+    */
+    pub struct EventBatch(super::EventBatch);
+
+    impl EventBatch {
+        /** Create an empty batch through `Channel::new`. */
+        pub fn new() -> Self {
+            EventBatch(<super::EventBatch as emit_batcher::Channel>::new())
+        }
+
+        /** Push an event buffer through `Channel::push`. */
+        pub fn push(&mut self, buf: Vec<u8>) {
+            emit_batcher::Channel::push(&mut self.0, buf.into_boxed_slice())
+        }
+
+        /** Clear the batch through `Channel::clear`. */
+        pub fn clear(&mut self) {
+            emit_batcher::Channel::clear(&mut self.0)
+        }
+
+        /** The value of `Channel::len`. */
+        pub fn len(&self) -> usize {
+            emit_batcher::Channel::len(&self.0)
+        }
+
+        /** The value of the private `remaining_bytes` field. */
+        pub fn remaining_bytes(&self) -> usize {
+            self.0.remaining_bytes
+        }
+
+        /** The value of the private `index` field. */
+        pub fn index(&self) -> usize {
+            self.0.index
+        }
+
+        /** The total number of buffers held, including those already advanced over. */
+        pub fn total_bufs(&self) -> usize {
+            self.0.bufs.len()
+        }
+
+        /** Copies of the event buffers from the cursor onwards. */
+        pub fn remaining_bufs(&self) -> Vec<Vec<u8>> {
+            self.0
+                .bufs
+                .iter()
+                .skip(self.0.index)
+                .map(|buf| buf.to_vec())
+                .collect()
+        }
+    }
+
+    /**
+    The real private `Worker` over an injected filesystem, clock, and rng.
+    */
+    pub struct Worker(super::Worker);
+
+    impl Worker {
+        /**
+        Construct the real worker. Arguments are passed through to the private `Worker::new` unchanged.
+        */
+        pub fn new(
+            fs: impl Filesystem + Send + Sync + 'static,
+            clock: impl Clock + Send + Sync + 'static,
+            rng: impl Rng + Send + Sync + 'static,
+            dir: String,
+            file_prefix: String,
+            file_ext: String,
+            roll_by: RollBy,
+            reuse_files: bool,
+            max_files: usize,
+            max_file_size_bytes: usize,
+            separator: &'static [u8],
+        ) -> Self {
+            Worker(super::Worker::new(
+                Arc::new(InternalMetrics::default()),
+                FilesystemAdapter(fs),
+                clock,
+                rng,
+                dir,
+                file_prefix,
+                file_ext,
+                roll_by.to_private(),
+                reuse_files,
+                max_files,
+                max_file_size_bytes,
+                separator,
+            ))
+        }
+
+        /**
+        Run the real `Worker::on_batch`. A retryable failure returns the batch it handed back.
+        */
+        pub fn on_batch(&mut self, batch: EventBatch) -> Result<(), Option<EventBatch>> {
+            self.0
+                .on_batch(batch.0)
+                .map_err(|err| err.into_retryable().map(EventBatch))
+        }
+
+        /**
+        Run the real `Worker::on_batch` on a fresh batch built from `events`. A retryable failure returns the remaining event buffers.
+        */
+        pub fn on_batch_bufs(&mut self, events: Vec<Vec<u8>>) -> Result<(), Option<Vec<Vec<u8>>>> {
+            let mut batch = EventBatch::new();
+            for event in events {
+                batch.push(event);
+            }
+
+            self.on_batch(batch)
+                .map_err(|retry| retry.map(|batch| batch.remaining_bufs()))
+        }
+
+        /** Whether the worker currently holds an active file. */
+        pub fn has_active_file(&self) -> bool {
+            self.0.active_file.is_some()
+        }
+    }
+
+    /**
+    The private `dir_prefix_ext` split of a file set template.
+    */
+    pub fn dir_prefix_ext(file_set: &Path) -> Result<(String, String, String), String> {
+        super::dir_prefix_ext(file_set).map_err(|err| err.to_string())
+    }
+
+    /**
+    The file name the worker would create for a clock reading and random id.
+    */
+    pub fn file_name(
+        roll_by: RollBy,
+        file_prefix: &str,
+        file_ext: &str,
+        ts: emit::Timestamp,
+        rolling_id: u32,
+    ) -> String {
+        let roll_by = roll_by.to_private();
+        let parts = ts.to_parts();
+
+        super::file_name(
+            file_prefix,
+            file_ext,
+            &super::file_ts(roll_by, parts),
+            &super::file_id(super::rolling_millis(roll_by, ts, parts), rolling_id),
+        )
+    }
+
+    /**
+    The private `read_file_name_ts`.
+    */
+    pub fn read_file_name_ts(file_name: &str) -> Option<String> {
+        super::read_file_name_ts(file_name)
+            .ok()
+            .map(|ts| ts.to_owned())
+    }
+}
+
 #[cfg(test)]
 mod tests {
     use super::*;
